@@ -55,6 +55,8 @@ usage:
 			tableName = internal.UnquoteAll(s[1])
 		case "to":
 			toVer = internal.UnquoteAll(s[1])
+		default:
+			return nil, fmt.Errorf("unknown option: %s", s[0])
 		}
 	}
 	if tableName == "" {
